@@ -16,6 +16,7 @@
 #pragma once
 
 #include <unifex/bind_back.hpp>
+#include <unifex/detail/verif_hooks.hpp>
 #include <unifex/get_stop_token.hpp>
 #include <unifex/inplace_stop_token.hpp>
 #include <unifex/receiver_concepts.hpp>
@@ -201,6 +202,7 @@ private:
       // source so we can't use this->op_ after request_stop() returns
       auto op = op_;
 
+      UNIFEX_VERIF_YIELD("algrace.sw_cb_add");
       if (op->activeOpCount_.fetch_add(1, std::memory_order_relaxed) == 0) {
         // someone's already invoked deliver_result() so we should bail out
         return;
@@ -208,6 +210,7 @@ private:
 
       op->stopSource_.request_stop();
 
+      UNIFEX_VERIF_YIELD("algrace.sw_cb_sub");
       if (op->activeOpCount_.fetch_sub(1, std::memory_order_acq_rel) == 1) {
         // we're the last owner of the operation so deliver its result now
         op->deliver_result();
@@ -222,6 +225,7 @@ private:
 
   void notify_trigger_complete() noexcept {
     stopSource_.request_stop();
+    UNIFEX_VERIF_YIELD("algrace.sw_sub");
     if (activeOpCount_.fetch_sub(1, std::memory_order_acq_rel) == 1) {
       stopCallback_.reset();
       deliver_result();
